@@ -338,6 +338,49 @@ func perElementLoopOK(P *Prog, fn *ssa.Function, x *exitInfo, over *Term, callee
 }
 
 func perElementLoopOKd(P *Prog, fn *ssa.Function, x *exitInfo, over *Term, callee *ssa.Function, depth int) string {
+	return perElementLoopOKf(P, fn, x, over, callee, depth, nil)
+}
+
+// impliesCallee: success of g implies ok(callee(...)) on something derived
+// from g's own parameter (g is the callee or a thin adapter around it).
+func impliesCallee(P *Prog, g, callee *ssa.Function) bool {
+	if g == callee {
+		return true
+	}
+	if g == nil || !P.inPkg(g) || errIndex(g) < 0 {
+		return false
+	}
+	n := 0
+	for _, gx := range P.factsOf(g).exits {
+		if gx.kind == exitFailure {
+			continue
+		}
+		n++
+		found := false
+		for _, f := range exitFacts(P, gx) {
+			if !f.Val || f.Pred.Op != "binop" || f.Pred.S != "==" {
+				continue
+			}
+			for i := 0; i < 2; i++ {
+				c := f.Pred.Args[i]
+				if c.Op == "res" && len(c.Args) == 1 {
+					c = c.Args[0]
+				}
+				if f.Pred.Args[1-i].Op == "nil" && c.Op == "call" && c.S == shortFn(callee) && c.contains(func(u *Term) bool { return u.Op == "param" }) {
+					found = true
+				}
+			}
+		}
+		if !found {
+			return false
+		}
+	}
+	return n > 0
+}
+
+// perElementLoopOKf: fnArgs maps parameter indexes of fn to the functions the
+// caller passes there (a per-element function handed to a generic loop helper).
+func perElementLoopOKf(P *Prog, fn *ssa.Function, x *exitInfo, over *Term, callee *ssa.Function, depth int, fnArgs map[int]*ssa.Function) string {
 	if callee == nil {
 		return "per-element callee not found"
 	}
@@ -382,7 +425,19 @@ func perElementLoopOKd(P *Prog, fn *ssa.Function, x *exitInfo, over *Term, calle
 					if hx.kind == exitFailure {
 						continue
 					}
-					if w := perElementLoopOKd(P, h, hx, T("param", strconv.Itoa(k)), callee, depth+1); w != "" {
+					// functions handed to the helper by value
+					fa := map[int]*ssa.Function{}
+					for i, a := range ci.Common().Args {
+						switch fv := a.(type) {
+						case *ssa.Function:
+							fa[i] = fv
+						case *ssa.MakeClosure:
+							if g, ok := fv.Fn.(*ssa.Function); ok && len(fv.Bindings) == 0 {
+								fa[i] = g
+							}
+						}
+					}
+					if w := perElementLoopOKf(P, h, hx, T("param", strconv.Itoa(k)), callee, depth+1, fa); w != "" {
 						why = w
 					}
 				}
@@ -415,8 +470,17 @@ func perElementLoopOKd(P *Prog, fn *ssa.Function, x *exitInfo, over *Term, calle
 		ok := false
 		p.instrs(func(in ssa.Instruction) {
 			ci, isCall := in.(ssa.CallInstruction)
-			if !isCall || staticCallee(ci) != callee || ci.Value() == nil {
+			if !isCall || ci.Value() == nil {
 				return
+			}
+			viaParam := false
+			if staticCallee(ci) != callee {
+				// the per-element function received as a parameter
+				prm, isPrm := ci.Common().Value.(*ssa.Parameter)
+				if !isPrm || ci.Common().IsInvoke() || fnArgs == nil || !impliesCallee(P, fnArgs[paramIndex(prm)], callee) {
+					return
+				}
+				viaParam = true
 			}
 			// one argument (receiver or data) is over[idx]
 			elem := false
@@ -430,7 +494,23 @@ func perElementLoopOKd(P *Prog, fn *ssa.Function, x *exitInfo, over *Term, calle
 			}
 			errV := p.eng.of(ci.Value())
 			if ci.Value().Type().String() != "error" {
-				errV = &Term{Op: "res", S: strconv.Itoa(errIndex(callee)), Args: []*Term{errV}}
+				ei := errIndex(callee)
+				if viaParam {
+					// the error result of the function value's own signature
+					ei = -1
+					if tup, isTup := ci.Value().Type().(*types.Tuple); isTup {
+						for k := tup.Len() - 1; k >= 0; k-- {
+							if tup.At(k).Type().String() == "error" {
+								ei = k
+								break
+							}
+						}
+					}
+					if ei < 0 {
+						return
+					}
+				}
+				errV = &Term{Op: "res", S: strconv.Itoa(ei), Args: []*Term{errV}}
 			}
 			if p.has(okFact(errV)) {
 				ok = true
